@@ -45,9 +45,10 @@ type Site struct {
 type Work struct {
 	Sites   []Site `json:"sites"`
 	CtxMode int    `json:"ctx_mode,omitempty"` // 0 simulated cancellable context, 1 context.Background(), 2 vm.Execute (no context argument)
+	Cut     int    `json:"cut,omitempty"`      // >0: the source text handed to the interpreter ends after this many bytes (a program that arrives truncated)
 }
 
-const nSites = 107
+const nSites = 113
 const nWraps = 7
 
 func siteSrc(k int, id string) string {
@@ -268,8 +269,21 @@ func siteSrc(k int, id string) string {
 		return "load(libpath)"
 	case 105:
 		return "go load(libpath)\nlibfn = load(libpath2)\nlibfn(" + id + ")"
-	default:
+	case 106:
 		return "try { load(libpath) } catch e" + id + " { h(" + id + ") }\ndefer load(libpath2)"
+	// operators fed with values whose kind or sign is only known at run time
+	case 107:
+		return "x" + id + " = hid(1) << (hid(0) - 1)\ny" + id + " = 1 >> hid(-2)\nz" + id + " = hid(8) >> h(" + id + ")"
+	case 108:
+		return "x" + id + " = hid(1) << hid(\"-3\")\ny" + id + " = hid(2.5) << hid(-0.5)\nz" + id + " = hid(\"4\") >> hid(nil)\nw" + id + " = hid(true) << hid([1])"
+	case 109:
+		return "s" + id + " = hid(\"a\")\ns" + id + "++\nn" + id + " = hid(nil)\nn" + id + " += 1\nb" + id + " = hid(true)\nb" + id + "--\nc" + id + " = hid([1])\nc" + id + " -= h(" + id + ")"
+	case 110:
+		return "x" + id + " = -hid(\"x\")\ny" + id + " = !hid([1])\nz" + id + " = ^hid(1.5)\nw" + id + " = -hid(nil)\nv" + id + " = ^hid({})"
+	case 111:
+		return "x" + id + " = hid(1) ** hid(-1)\ny" + id + " = hid(\"ab\") * hid(-1)\nz" + id + " = hid([1]) * 2\nw" + id + " = hid(7) / hid(\"0\")\nv" + id + " = hid(7) % hid(0.5)"
+	default:
+		return "x" + id + " = hid(1) & hid(\"z\")\ny" + id + " = hid(1.5) | hid(nil)\nz" + id + " = hid({}) ^ 1\nw" + id + " = hid([1, 2]) + hid({\"a\": 1})\nv" + id + " = hid(nil) < hid([1])\nu" + id + " = hid(func() { }) == hid(func() { })"
 	}
 }
 
@@ -297,8 +311,18 @@ func Render(w *Work) string {
 		id := strconv.Itoa(i + 1)
 		parts = append(parts, wrapSrc(s.Wrap, siteSrc(s.K, id), id))
 	}
-	return strings.Join(parts, "\n") + "\n"
+	if w.Cut > 0 {
+		// a truncated program also carries every kind of token, so that the cut can fall inside each of them
+		parts = append([]string{tokenZoo}, parts...)
+	}
+	s := strings.Join(parts, "\n") + "\n"
+	if w.Cut > 0 && w.Cut < len(s) {
+		s = s[:w.Cut]
+	}
+	return s
 }
+
+const tokenZoo = "lx = [\"caf\\u00e9 \\U0001F600 \\x41\\101 \u00e9\\t\\\"q\\\" \\\\\", `raw\\n`, 'x\\ty', 0x1F, 1e9, 1.5e-3, 0b101, \"\u65e5\u672c\u8a9e\"] # c\nly = /* c */ 1 // c\nlz = lx[0] + lx[1] ?? ly"
 
 var faultKinds = []string{"panic-string", "panic-error", "panic-value", "runtime-error", "error-result", "nil-func", "close-chan", "cancel", "panic-typed-nil-error", "panic-nil"}
 
@@ -330,6 +354,14 @@ func (Prop) Gen(seed int64, tier string) *harness.Case {
 	}
 	if r.Intn(3) == 0 {
 		w.CtxMode = 1 + r.Intn(2)
+	}
+	if r.Intn(5) == 0 {
+		// the program arrives cut off at an arbitrary byte (inside a token, a string, a block ...)
+		probe := w
+		probe.Cut = 1 << 30
+		if full := len(Render(&probe)); full > 1 {
+			w.Cut = 1 + r.Intn(full-1)
+		}
 	}
 	var evs []harness.EventSpec
 	nf := 1 + r.Intn(3)
@@ -535,6 +567,9 @@ func (Prop) Run(t *testing.T, c *harness.Case, verbose bool) *harness.Result {
 	}
 	sig := "sites=" + strings.Join(sites, ",")
 	res.Counters[fmt.Sprintf("ctx_mode_%d", w.CtxMode)]++
+	if w.Cut > 0 {
+		res.Counters["input_perturbation_truncated_source"]++
+	}
 	fail := func(class, detail string) *harness.Result {
 		res.Violation = class
 		res.Detail = fmt.Sprintf("%s\nfaults (k-th host call -> kind): %v, fired: %v\n%s", detail, faults, fired, src)
@@ -572,8 +607,17 @@ func (Prop) Shrink(c *harness.Case) []*harness.Case {
 		out = append(out, d)
 	}
 	for i := range w.Sites {
-		nw := Work{Sites: append(append([]Site{}, w.Sites[:i]...), w.Sites[i+1:]...), CtxMode: w.CtxMode}
+		nw := Work{Sites: append(append([]Site{}, w.Sites[:i]...), w.Sites[i+1:]...), CtxMode: w.CtxMode, Cut: w.Cut}
 		if len(nw.Sites) > 0 {
+			if w.Cut > 0 {
+				// keep the cut at the same place of the text when a site in front of it goes away
+				full, rest := Work{Sites: w.Sites, Cut: 1 << 30}, Work{Sites: nw.Sites, Cut: 1 << 30}
+				if d := len(Render(&full)) - len(Render(&rest)); i < len(w.Sites)-1 && w.Cut > d {
+					alt := nw
+					alt.Cut = w.Cut - d
+					emit(alt, c.Events)
+				}
+			}
 			emit(nw, c.Events)
 		}
 	}
@@ -583,14 +627,20 @@ func (Prop) Shrink(c *harness.Case) []*harness.Case {
 	}
 	for i, s := range w.Sites {
 		if s.Wrap != 0 {
-			nw := Work{Sites: append([]Site{}, w.Sites...), CtxMode: w.CtxMode}
+			nw := Work{Sites: append([]Site{}, w.Sites...), CtxMode: w.CtxMode, Cut: w.Cut}
 			nw.Sites[i].Wrap = 0
 			emit(nw, c.Events)
 		}
 	}
 	if w.CtxMode != 0 {
-		nw := Work{Sites: w.Sites}
+		nw := Work{Sites: w.Sites, Cut: w.Cut}
 		emit(nw, c.Events)
+	}
+	if w.Cut > 0 {
+		emit(Work{Sites: w.Sites, CtxMode: w.CtxMode}, c.Events)
+		if w.Cut > 1 {
+			emit(Work{Sites: w.Sites, CtxMode: w.CtxMode, Cut: w.Cut - 1}, c.Events)
+		}
 	}
 	for i, ev := range c.Events {
 		if ev.Arg > 1 {
